@@ -50,6 +50,11 @@ def sweep_run(prop, tier):
     return sweep.run_sweep(prop, tier)
 
 
+def apalache_run(prop, tier):
+    from . import apalache
+    return apalache.run_apalache(prop, tier)
+
+
 def cli_run(prop, tier):
     from . import cli
     return cli.run_cli(prop, tier)
@@ -92,7 +97,7 @@ PLANS = {
         mc=PARSER_MC + [mc("MC_Parser", "NC_Parser_stale.cfg", expect="ProvenanceInv", workers=4),
                         mc("MC_Parser", "NC_Parser_underflow.cfg", expect="NoFault", workers=4)],
         families=[fam("seq", F.fam_seq, need_classes=["open", "continue", "deliver", "reject_seq_id", "reject_seq_no"])],
-        custom=[dict(run=walk_std), dict(run=walk_none), dict(run=walk_alloc, tier="thorough")],
+        custom=[dict(run=walk_std), dict(run=walk_none), dict(run=walk_alloc, tier="thorough"), dict(run=apalache_run)],
         rule="ProvenanceInv over all histories of the bounded model (negative controls: stale group, u8 underflow); "
              "EVERY path of length <= D over 22 abstract lines replayed into the real parser and judged against the TLC "
              "transition table; random streams with loss/duplication/reordering validated by the trace specification"),
